@@ -52,6 +52,8 @@ structure InvG (R : Nat → Sess → String → Prop) (orph : List Nat) (h : Hub
   orph_virt : ∀ v, v ∈ orph → ∀ y, h.sess v = some y → y.kind = .virtual
   -- a room's in-call set holds members only (C07: nothing stays behind)
   incall : ∀ b r rm s, h.rooms b r = some rm → s ∈ rm.inCall → s ∈ rm.members
+  -- the per-backend count of registered sessions respects the configured limit (C07)
+  count_le : ∀ b, h.limit b ≠ 0 → (h.count b).length ≤ h.limit b
 
 /-- The invariant proper: no relaxation of `room_mem`. -/
 notation "InvX" => InvG (fun _ _ _ => False)
@@ -124,6 +126,7 @@ theorem InvG.congr {R : Nat → Sess → String → Prop} {orph : List Nat} {h h
   · intro b s h1; have := hi.count b s; have := es s; grind
   · intro v hv y hy; have := hi.orph_virt v hv; have := es v; grind
   · intro b r rm s h1 h2; have := hi.incall b r rm s; grind
+  · intro b hb; have := hi.count_le b; grind
 
 end SigModel.Hub
 
